@@ -95,6 +95,13 @@ func loadHintIndex(path string) (index *hintFileIndex, err error) {
 	index = &hintFileIndex{path: path}
 	index.hintFileMeta.Loads(head[:])
 	start := index.indexOffset
+	if start < HINTFILE_HEAD_SIZE || start > size || (size-start)%16 != 0 {
+		// not a complete hint file (e.g. header never written): let the caller drop and rebuild it
+		err = fmt.Errorf("bad hint file %s: index offset %d, size %d", path, start, size)
+		logger.Errorf(err.Error())
+		fd.Close()
+		return nil, err
+	}
 	num := int(size - start)
 	fd.Seek(start, 0)
 	raw := make([]byte, num)
